@@ -181,6 +181,38 @@ theorem keys_map (l : List (κ × α)) (f : α → β) :
     keys (l.map (fun e => (e.1, f e.2))) = keys l := by
   simp [keys, List.map_map, Function.comp_def]
 
+theorem foldl_del_eq_filter (ks : List κ) (m : List (κ × α)) :
+    ks.foldl (fun m k => del k m) m = m.filter (fun e => !decide (e.1 ∈ ks)) := by
+  induction ks generalizing m with
+  | nil =>
+    simp only [List.foldl_nil, List.not_mem_nil, decide_false, Bool.not_false]
+    exact (List.filter_eq_self.mpr (fun _ _ => rfl)).symm
+  | cons k r ih =>
+    simp only [List.foldl_cons]
+    rw [ih (del k m)]
+    simp only [del, List.filter_filter]
+    refine List.filter_congr (fun e _ => ?_)
+    by_cases h1 : e.1 = k <;> by_cases h2 : e.1 ∈ r <;> simp [h1, h2]
+
+theorem filter_keys_filter (m : List (κ × α)) (hn : (keys m).Nodup) (p : κ × α → Bool) :
+    m.filter (fun e => !decide (e.1 ∈ keys (m.filter p))) = m.filter (fun e => !p e) := by
+  refine List.filter_congr (fun e he => ?_)
+  congr 1
+  by_cases hp : p e = true
+  · have : e.1 ∈ keys (m.filter p) := List.mem_map.mpr ⟨e, List.mem_filter.mpr ⟨he, hp⟩, rfl⟩
+    simp [this, hp]
+  · have : e.1 ∉ keys (m.filter p) := by
+      intro hk
+      obtain ⟨e', he', hk'⟩ := List.mem_map.mp hk
+      have hm := (List.mem_filter.mp he')
+      have g1 : get e.1 m = some e'.2 := get_of_mem hn (by rw [← hk']; exact hm.1)
+      have g2 : get e.1 m = some e.2 := get_of_mem hn he
+      have : e' = e := by
+        rw [g1] at g2; injection g2 with g2
+        exact Prod.ext hk' g2
+      rw [this] at hm; exact hp hm.2
+    simp [this, hp]
+
 end AList
 
 /-! ### Shape of the state after each plan -/
@@ -716,6 +748,201 @@ theorem crash_cases {s : State} (h : Inv' parse s) (op : Op) (hw : OpWF parse op
         obtain ⟨h1, a1⟩ := delete_crash parse h id it hg k
         refine ⟨h1, Or.inr ?_⟩
         rw [a1, (delete_some parse h id it hg).2]
+
+/-! ### Expiry sweep, histories -/
+
+theorem deleteMany {s : State} (h : Inv' parse s) (ids : List Id) :
+    Inv' parse (ids.foldl (fun s id => exec s (.delete id)) s) ∧
+      abs parse (ids.foldl (fun s id => exec s (.delete id)) s) =
+        ids.foldl (fun m id => del id m) (abs parse s) := by
+  induction ids generalizing s with
+  | nil => exact ⟨h, rfl⟩
+  | cons id r ih =>
+    obtain ⟨h1, a1⟩ := exec_refines parse h (.delete id) trivial
+    obtain ⟨h2, a2⟩ := ih h1
+    refine ⟨h2, ?_⟩
+    simp only [List.foldl_cons]
+    rw [a2, a1]; rfl
+
+theorem expiredIds_abs (s : State) (now : Nat) :
+    expiredIds s now = keys ((abs parse s).filter (fun e => decide (e.2.expires < now))) := by
+  simp only [expiredIds, abs, keys, List.filter_map, List.map_map]
+  rfl
+
+theorem sweep_refines {s : State} (h : Inv' parse s) (now : Nat) :
+    Inv' parse (sweep s now) ∧ abs parse (sweep s now) = specStep (abs parse s) (.sweep now) := by
+  obtain ⟨h1, a1⟩ := deleteMany parse h (expiredIds s now)
+  refine ⟨h1, ?_⟩
+  simp only [sweep, a1, foldl_del_eq_filter, specStep]
+  rw [expiredIds_abs parse s now]
+  exact filter_keys_filter (abs parse s) (by rw [keys_abs]; exact h.1) _
+
+theorem step_refines {s : State} (h : Inv' parse s) (c : Cmd) (hw : CmdWF parse c) :
+    Inv' parse (step s c) ∧ abs parse (step s c) = specStep (abs parse s) c := by
+  cases c with
+  | op o => exact exec_refines parse h o hw
+  | sweep now => exact sweep_refines parse h now
+  | reopen => exact ⟨h, rfl⟩
+
+theorem run_refines {s : State} (h : Inv' parse s) (cs : List Cmd) (hw : ∀ c ∈ cs, CmdWF parse c) :
+    Inv' parse (run s cs) ∧ abs parse (run s cs) = specRun (abs parse s) cs := by
+  induction cs generalizing s with
+  | nil => exact ⟨h, rfl⟩
+  | cons c r ih =>
+    obtain ⟨h1, a1⟩ := step_refines parse h c (hw c (by simp))
+    obtain ⟨h2, a2⟩ := ih h1 (fun c hc => hw c (List.mem_cons_of_mem _ hc))
+    refine ⟨h2, ?_⟩
+    simp only [run, specRun, List.foldl_cons] at a2 ⊢
+    rw [a2, a1]
+
+/-! ### No stuck state: every micro-step of every operation succeeds -/
+
+theorem names_nodup {s : State} {id : Id} {it : Item} (ok : ItemOk parse s id it) :
+    (it.parts.map (·.name)).Nodup := by
+  cases hf : it.fragmented with
+  | false =>
+    obtain ⟨p, hp⟩ := ok.whole hf
+    simp [hp]
+  | true =>
+    have hnd := ok.nodup
+    simp only [List.Nodup, List.pairwise_map] at hnd ⊢
+    refine hnd.imp_of_mem ?_
+    intro a b ha hb hne e
+    rw [ok.names a ha, ok.names b hb] at e
+    simp only [hf, if_true] at e
+    injection e with _ e
+    injection e with e
+    exact hne e
+
+theorem stepsOk_removes (idx : List (Id × Item)) (ns : List Name) (fs : List (Name × Bytes))
+    (hn : ns.Nodup) (hex : ∀ n ∈ ns, (get n fs).isSome) :
+    stepsOk ⟨idx, fs⟩ (ns.map Step.removeFile) = true := by
+  induction ns generalizing fs with
+  | nil => rfl
+  | cons n r ih =>
+    simp only [List.nodup_cons] at hn
+    simp only [List.map_cons, stepsOk, stepOk, applyStep, Bool.and_eq_true]
+    refine ⟨hex n (by simp), ih _ hn.2 ?_⟩
+    intro m hm
+    have : n ≠ m := fun e => hn.1 (e ▸ hm)
+    rw [get_del_ne n m fs this]
+    exact hex m (List.mem_cons_of_mem _ hm)
+
+theorem file_exists {s : State} {id : Id} {it : Item} (ok : ItemOk parse s id it) :
+    ∀ n ∈ it.parts.map (·.name), (get n s.files).isSome := by
+  intro n hn
+  obtain ⟨p, hp, rfl⟩ := List.mem_map.mp hn
+  obtain ⟨b, hb, _⟩ := ok.readable p hp
+  simp only [loadPart] at hb
+  cases hg : get p.name s.files with
+  | none => simp [hg] at hb
+  | some x => rfl
+
+/-- In every state satisfying `Inv'` — in particular in every state a process kill can leave —
+every micro-step of every operation succeeds: nothing is stuck, no error is returned. -/
+theorem no_stuck {s : State} (h : Inv' parse s) (op : Op) : stepsOk s (plan s op) = true := by
+  cases op with
+  | push b =>
+    cases hg : get b.id s.index with
+    | none => simp [plan, hg, stepsOk, stepOk, applyStep]
+    | some it =>
+      by_cases hc : (b.frag.isSome && it.fragmented && !(it.parts.any (sameFrag b))) = true
+      · simp [plan, hg, hc, stepsOk, stepOk, applyStep]
+      · simp [plan, hg, hc, stepsOk]
+  | update id pe ex pr =>
+    cases hg : get id s.index <;> simp [plan, hg, stepsOk, stepOk]
+  | delete id =>
+    cases hg : get id s.index with
+    | none => simp [plan, hg, stepsOk]
+    | some it =>
+      have ok := h.2 id it hg
+      have : (it.parts.map (fun p => Step.removeFile p.name)) =
+          (it.parts.map (·.name)).map Step.removeFile := by
+        simp [List.map_map, Function.comp_def]
+      simp only [plan, hg, stepsOk, stepOk, Option.isSome_some, Bool.true_and, applyStep, this]
+      exact stepsOk_removes _ _ _ (names_nodup parse ok) (file_exists parse ok)
+
+/-! ### Complete operations leave no unreferenced file -/
+
+theorem noOrphans_exec {s : State} (h : Inv' parse s) (ho : NoOrphans s) (op : Op) :
+    NoOrphans (exec s op) := by
+  cases op with
+  | push b =>
+    cases hg : get b.id s.index with
+    | none =>
+      rw [exec_push_new s b hg]
+      intro n hn
+      by_cases hnn : n = (partOf b).name
+      · exact ⟨b.id, newItem b, get_put_self _ _ _, partOf b, by simp [newItem], hnn.symm⟩
+      · rw [written_frame s b n hnn] at hn
+        obtain ⟨id, it, hgi, hp⟩ := ho n hn
+        have : b.id ≠ id := by intro e; subst e; rw [hg] at hgi; cases hgi
+        exact ⟨id, it, by simp only; rw [get_put_ne _ _ _ _ this]; exact hgi, hp⟩
+    | some it0 =>
+      cases hc : pushCond b it0 with
+      | true =>
+        rw [exec_push_frag s b it0 hg hc]
+        intro n hn
+        by_cases hnn : n = (partOf b).name
+        · exact ⟨b.id, _, get_put_self _ _ _, partOf b, by simp, hnn.symm⟩
+        · rw [written_frame s b n hnn] at hn
+          obtain ⟨id, it, hgi, p, hp, hpn⟩ := ho n hn
+          by_cases hid : b.id = id
+          · subst hid
+            rw [hg] at hgi; injection hgi with hgi; subst hgi
+            exact ⟨b.id, _, get_put_self _ _ _, p, by simp [hp], hpn⟩
+          · exact ⟨id, it, by simp only; rw [get_put_ne _ _ _ _ hid]; exact hgi, p, hp, hpn⟩
+      | false =>
+        simp only [exec, plan_push_ignored s b it0 hg hc, runSteps]; exact ho
+  | update id pe ex pr =>
+    cases hg : get id s.index with
+    | none => simp only [exec, plan_update_none s id pe ex pr hg, runSteps]; exact ho
+    | some it0 =>
+      rw [exec_update_some s id pe ex pr it0 hg]
+      intro n hn
+      obtain ⟨id', it, hgi, p, hp, hpn⟩ := ho n hn
+      by_cases hid : id = id'
+      · subst hid
+        rw [hg] at hgi; injection hgi with hgi; subst hgi
+        exact ⟨id, _, get_put_self _ _ _, p, hp, hpn⟩
+      · exact ⟨id', it, by simp only; rw [get_put_ne _ _ _ _ hid]; exact hgi, p, hp, hpn⟩
+  | delete id =>
+    cases hg : get id s.index with
+    | none => simp only [exec, plan_delete_none s id hg, runSteps]; exact ho
+    | some it0 =>
+      rw [exec_delete_some s id it0 hg]
+      intro n hn
+      simp only [deleted] at hn
+      by_cases hmem : n ∈ it0.parts.map (·.name)
+      · rw [get_removeAll_of_mem n _ _ hmem] at hn; cases hn
+      · rw [get_removeAll_of_not_mem n _ _ hmem] at hn
+        obtain ⟨id', it, hgi, p, hp, hpn⟩ := ho n hn
+        have hid : id ≠ id' := by
+          intro e; subst e
+          rw [hg] at hgi; injection hgi with hgi; subst hgi
+          exact hmem (List.mem_map.mpr ⟨p, hp, hpn⟩)
+        exact ⟨id', it, by simp only [deleted]; rw [get_del_ne _ _ _ hid]; exact hgi, p, hp, hpn⟩
+
+theorem inv_exec {s : State} (h : Inv parse s) (op : Op) (hw : OpWF parse op) : Inv parse (exec s op) :=
+  ⟨(exec_refines parse h.1 op hw).1, noOrphans_exec parse h.1 h.2 op⟩
+
+theorem inv_step {s : State} (h : Inv parse s) (c : Cmd) (hw : CmdWF parse c) : Inv parse (step s c) := by
+  cases c with
+  | op o => exact inv_exec parse h o hw
+  | sweep now =>
+    simp only [step, sweep]
+    generalize expiredIds s now = ids
+    induction ids generalizing s with
+    | nil => exact h
+    | cons id r ih => exact ih (inv_exec parse h (.delete id) trivial)
+  | reopen => exact h
+
+theorem inv_run {s : State} (h : Inv parse s) (cs : List Cmd) (hw : ∀ c ∈ cs, CmdWF parse c) :
+    Inv parse (run s cs) := by
+  induction cs generalizing s with
+  | nil => exact h
+  | cons c r ih =>
+    exact ih (inv_step parse h c (hw c (by simp))) (fun c hc => hw c (List.mem_cons_of_mem _ hc))
 
 end Inv
 
